@@ -1,4 +1,5 @@
 import SLE.Lemmas.Json
+import SLE.Lemmas.JsonText
 /-!
 # C20 — layouts survive a JSON round trip with exact 256-bit slot indices
 
@@ -6,7 +7,7 @@ Property theorems over M8 (`SLE.JsonModel`): serde's observable shapes of `Stora
 `AbiType`, `StructElement`, and the text of `U256Wrapper`.
 -/
 namespace SLE.C20
-open SLE.JsonModel
+open SLE.JsonModel SLE.JsonText
 
 /-- Slot indices are written as `0x` followed by exactly 64 hex digits … -/
 theorem C20_hex_shape (n : Nat) : (toHex64 n).length = 66 ∧ (toHex64 n).take 2 = ['0', 'x'] :=
@@ -22,6 +23,28 @@ theorem C20_abi_roundtrip (t : AbiType) (h : WFAbi t) : decode (encode t) = some
 /-- Every layout entry round-trips. -/
 theorem C20_slot_roundtrip (s : StorageSlot) (hi : s.index < 2 ^ 256) (ht : WFAbi s.typ) :
     decodeSlot (encodeSlot s) = some s := decodeSlot_encodeSlot s hi ht
+
+/-! ### The text layer (`Model/JsonText.lean`: serde_json's compact output with its string escaping,
+and a JSON parser; tied to the code by the `json` family, which compares the rendered text with
+`serde_json::to_string` byte for byte and parses the code's own text back with this parser) -/
+
+/-- String escaping is inverted by the parser for every string: quotes, backslashes, control
+characters, U+007F, non-ASCII — any list of Unicode scalar values. -/
+theorem C20_unescape_escape (cs rest : List Char) : parseStrBody (escape cs ++ '"' :: rest) = some (cs, rest) :=
+  unescape_escape cs rest
+
+/-- Parsing the rendered text of any JSON value gives the value back. -/
+theorem C20_parse_render (j : Json) : parse (render j) = some j := parse_render j
+
+/-- **The property at the level it is stated**: a layout entry serialised to JSON *text* and parsed
+back is the same entry, index exact to the bit. -/
+theorem C20_text_roundtrip (s : StorageSlot) (hi : s.index < 2 ^ 256) (ht : WFAbi s.typ) :
+    parseSlot (renderSlot s) = some s := parseSlot_renderSlot s hi ht
+
+/-- Two different entries never serialise to the same text. -/
+theorem C20_text_injective (s₁ s₂ : StorageSlot) (hi₁ : s₁.index < 2 ^ 256) (ht₁ : WFAbi s₁.typ)
+    (hi₂ : s₂.index < 2 ^ 256) (ht₂ : WFAbi s₂.typ) : renderSlot s₁ = renderSlot s₂ → s₁ = s₂ :=
+  renderSlot_injective s₁ s₂ hi₁ ht₁ hi₂ ht₂
 
 /-! ### Non-vacuity -/
 example : WFAbi (.mapping .address (.struct [.mk 0 (.array (2 ^ 255) (.conflictedType ["a"] ["b"])), .mk 8 .bool])) := by
